@@ -86,8 +86,8 @@ theorem genrg_anchor_eq (f tf : Vec) :
 
 /-- frequency block, up to the call of `interp`: the zero row at `f = 0` is put IN FRONT exactly when the model's
     `anchorLo` says so, and the nodes handed to `interp(freq=…, assume_sorted=False, fill_value=0)` are the model's
-    `pairs` of `freqStage`.  PARTIAL: the reading `Rg.interpFreq` (stable sort by frequency, `locate`, fill) is not
-    proved equal to `freqStage` on the lifted (`Option`) rows here. -/
+    `pairs` of `freqStage`.  PARTIAL (kept as a stepping stone): the reading `Rg.interpFreq` is proved equal to `freqStage`
+    on the lifted rows in `genrg_freq_stage_eq` / `genrg_freq_stage_masked_eq` below. -/
 theorem genrg_freq_stage_partial (f d : Vec) (e : Mat) (tf : Vec) :
     Gen.rgFreqBlock (ofMat f d e) tf =
       Rg.interpFreq (ofMat ((if anchorLo f tf then [0] else []) ++ f) d
@@ -188,5 +188,461 @@ theorem genrg_pins :
 theorem genrg_pins_plumbing :
     Gen.rgRegrid_plumbing = ["others = None", "if isinstance(dset, xr.Dataset):\n    keep = [v for v in dset.data_vars if not {attrs.FREQNAME, attrs.DIRNAME} & set(dset[v].dims)]\n    others = dset[keep]\n    dset = dset.drop_vars(keep)", "if isinstance(freq, (list, tuple)):\n    freq = np.array(freq)", "if isinstance(dir, (list, tuple)):\n    dir = np.array(dir)", "if others is not None:\n    dsout = dsout.assign(others.data_vars)", "if isinstance(dsout, xr.DataArray):\n    dsout.name = 'efth'", "set_spec_attributes(dsout)"] := by
   decide +kernel
+
+
+/-! ## the frequency stage, the `maintain_m0` factor and the whole function against `Model/Regrid.lean` -/
+
+/-- NaN mask of one column (a target direction outside the extended node range is NaN) -/
+def maskCol (ok : Bool) (v : Rat) : Option Rat := if ok then some v else none
+
+/-- NaN mask of a frequency-interpolated row of a NaN-free spectrum: NaN only on a degenerate segment -/
+def maskRow (l : Loc) (r : Vec) : Rg.ORow := if l.isNan then r.map (fun _ => none) else r.map some
+
+/-- the frequency block up to the call of `interp`, for ANY spectrum (NaN allowed): `0 * dsout.isel(freq=0)` relabelled
+    `freq = 0` goes in front exactly when `anchorLo` -/
+theorem genrg_freq_prefix (ds : Rg.Ds) (tf : Vec) :
+    Gen.rgFreqBlock ds tf =
+      Rg.interpFreq (if anchorLo ds.freq tf then
+          { freq := 0 :: ds.freq, dir := ds.dir, e := (ds.e.headD []).map (fun v => v.map fun y => 0 * y) :: ds.e }
+        else ds) tf 0 := by
+  simp only [Gen.rgFreqBlock]
+  have hf : Rg.freqC ds = ds.freq := rfl
+  rw [hf, genrg_anchor_eq]
+  cases anchorLo ds.freq tf
+  · simp
+  · simp [Rg.concatFreq, Rg.concat2Freq, Rg.setFreq, Rg.scaleDs, Rg.iselFreq, pick_zero]
+
+theorem zipWith_lerpO_some (t : Rat) : ∀ a b : Vec,
+    List.zipWith (fun x y => lerpO x y t) (a.map some) (b.map some) = (List.zipWith (fun x y => lerpT x y t) a b).map some := by
+  intro a b
+  simp [List.zipWith_map_left, List.zipWith_map_right, List.map_zipWith, lerpO]
+
+theorem zipWith_lerpO_mask (t : Rat) (i : Nat) : ∀ (c : List Bool) (a b : Vec),
+    List.zipWith (fun x y => lerpO x y t) (List.zipWith maskCol c a) (List.zipWith maskCol c b) =
+      List.zipWith (maskEntry (.seg i t)) c (List.zipWith (fun x y => lerpT x y t) a b) := by
+  intro c
+  induction c with
+  | nil => intro a b; simp
+  | cons k c ih =>
+    intro a b
+    cases a with
+    | nil => simp
+    | cons x a =>
+      cases b with
+      | nil => simp
+      | cons y b =>
+        simp only [List.zipWith_cons_cons, ih]
+        cases k <;> simp [maskCol, maskEntry, lerpO]
+
+theorem zipWith_const_replicate {γ : Type} (g : Bool → Rat → γ) (k : γ) (hg : ∀ b, g b 0 = k) :
+    ∀ (c : List Bool) (n : Nat), n ≤ c.length → List.zipWith g c (List.replicate n 0) = List.replicate n k := by
+  intro c
+  induction c with
+  | nil => intro n h; simp at h; subst h; rfl
+  | cons b c ih =>
+    intro n h
+    cases n with
+    | zero => simp
+    | succ n =>
+      simp only [List.replicate_succ, List.zipWith_cons_cons, hg]
+      rw [ih n (by simpa using h)]
+
+theorem scale0_mask : ∀ (c : List Bool) (r : Vec),
+    (List.zipWith maskCol c r).map (fun v => v.map fun y => 0 * y) = List.zipWith maskCol c (List.replicate r.length 0) := by
+  intro c
+  induction c with
+  | nil => intro r; simp
+  | cons b c ih =>
+    intro r
+    cases r with
+    | nil => simp
+    | cons x r =>
+      simp only [List.zipWith_cons_cons, List.map_cons, ih, List.length_cons, List.replicate_succ]
+      cases b <;> simp [maskCol]
+
+/-- GOAL 1.  The generated frequency block on a NaN-free spectrum = the model's `freqStage` (zero row in front iff
+    `anchorLo`, stable sort by frequency — the source frequencies may be unsorted and repeated, exactly as in the model —,
+    node search `locate`, fill value `0` outside the node range), NaN only where `locate` reports a degenerate segment.
+    No hypothesis. -/
+theorem genrg_freq_stage_eq (f d : Vec) (e : Mat) (tf : Vec) :
+    Gen.rgFreqBlock (ofMat f d e) tf =
+      { freq := tf, dir := d, e := List.zipWith maskRow (freqStage f e tf).locs (freqStage f e tf).vals } := by
+  rw [genrg_freq_prefix]
+  simp only [freqStage, List.zipWith_map_right, List.zipWith_self]
+  have hofe : (ofMat f d e).e = e.map (List.map some) := rfl
+  have hoff : (ofMat f d e).freq = f := rfl
+  have hofd : (ofMat f d e).dir = d := rfl
+  rw [hoff]
+  cases hlo : anchorLo f tf
+  · simp only [Bool.false_eq_true, if_false, List.nil_append]
+    have := interpFreq_lift (List.map some) maskRow (e.headD []).length f d e tf rfl
+      (fun i t a b => by rw [zipWith_lerpO_some]; simp [maskRow, Loc.isNan])
+      (by simp [maskRow, Loc.isNan]) (by simp [maskRow, Loc.isNan])
+      (by cases e <;> simp)
+    rw [show ofMat f d e = { freq := f, dir := d, e := e.map (List.map some) } from rfl, this]
+    simp [List.map_map, Function.comp_def]
+  · simp only [if_true, hofe, hofd, List.singleton_append]
+    have hz : (((e.map (List.map some)).headD []).map (fun v => v.map fun y => 0 * y)) :: e.map (List.map some) =
+        ((List.replicate (e.headD []).length (0 : Rat)) :: e).map (List.map some) := by
+      cases e <;> simp [← List.map_const']
+    rw [hz]
+    have := interpFreq_lift (List.map some) maskRow (e.headD []).length (0 :: f) d
+      (List.replicate (e.headD []).length (0 : Rat) :: e) tf rfl
+      (fun i t a b => by rw [zipWith_lerpO_some]; simp [maskRow, Loc.isNan])
+      (by simp [maskRow, Loc.isNan]) (by simp [maskRow, Loc.isNan])
+      (by simp)
+    rw [this]
+    simp [List.map_map, Function.comp_def]
+
+theorem genrg_freq_stage_masked_eq (f d : Vec) (e : Mat) (c : List Bool) (tf : Vec) (hrect : Rect e c.length) :
+    Gen.rgFreqBlock { freq := f, dir := d, e := e.map (List.zipWith maskCol c) } tf =
+      { freq := tf, dir := d,
+        e := List.zipWith (fun row r => List.zipWith (maskEntry row) c r) (freqStage f e tf).locs (freqStage f e tf).vals } := by
+  rw [genrg_freq_prefix]
+  simp only [freqStage, List.zipWith_map_right, List.zipWith_self]
+  have hnd : (e.headD []).length ≤ c.length := by
+    cases e with
+    | nil => simp
+    | cons r t => simp [hrect r (by simp)]
+  have hnd' : ((e.map (List.zipWith maskCol c)).headD []).length = (e.headD []).length := by
+    cases e with
+    | nil => simp
+    | cons r t => simp [hrect r (by simp)]
+  have hnan := (zipWith_const_replicate (maskEntry .nan) none (fun _ => rfl) c _ hnd).symm
+  have hout := (zipWith_const_replicate (maskEntry .out) (some 0) (fun _ => rfl) c _ hnd).symm
+  cases hlo : anchorLo f tf
+  · simp only [Bool.false_eq_true, if_false, List.nil_append]
+    rw [interpFreq_lift (List.zipWith maskCol c) (fun l r => List.zipWith (maskEntry l) c r) (e.headD []).length f d e tf
+      (by simp) (fun i t a b => zipWith_lerpO_mask t i c a b) hnan hout hnd']
+    simp [List.map_map, Function.comp_def]
+  · simp only [if_true, List.singleton_append]
+    have hz : (((e.map (List.zipWith maskCol c)).headD []).map (fun v => v.map fun y => 0 * y)) :: e.map (List.zipWith maskCol c) =
+        ((List.replicate (e.headD []).length (0 : Rat)) :: e).map (List.zipWith maskCol c) := by
+      cases e with
+      | nil => simp
+      | cons r t =>
+        simp only [List.map_cons, List.headD_cons]
+        rw [scale0_mask]
+    rw [hz]
+    rw [interpFreq_lift (List.zipWith maskCol c) (fun l r => List.zipWith (maskEntry l) c r) (e.headD []).length (0 :: f) d
+      (List.replicate (e.headD []).length (0 : Rat) :: e) tf
+      (by simp) (fun i t a b => zipWith_lerpO_mask t i c a b) hnan hout (by simp only [List.map_cons, List.headD_cons, List.length_zipWith, List.length_replicate]; omega)]
+    simp [List.map_map, Function.comp_def]
+
+/-- a generated spectrum as a model result -/
+def toOut (ds : Rg.Ds) : Out := { freq := ds.freq, dir := some ds.dir, e := ds.e }
+
+theorem zipWith_maskCol_true : ∀ (r : Vec) (n : Nat), r.length ≤ n →
+    List.zipWith maskCol (List.replicate n true) r = r.map some := by
+  intro r
+  induction r with
+  | nil => intro n _; simp
+  | cons a r ih =>
+    intro n h
+    cases n with
+    | zero => simp at h
+    | succ n => simp only [List.replicate_succ, List.zipWith_cons_cons, List.map_cons, ih n (by simpa using h)]; rfl
+
+theorem zipWith_const_rows {α β : Type} (G : Loc → α → β) (L : Loc) : ∀ (f : Vec) (rows : List α), rows.length ≤ f.length →
+    List.zipWith G (f.map fun _ => L) rows = rows.map (G L) := by
+  intro f
+  induction f with
+  | nil => intro rows h; cases rows <;> simp_all
+  | cons a f ih =>
+    intro rows h
+    cases rows with
+    | nil => simp
+    | cons r rows => simp only [List.map_cons, List.zipWith_cons_cons, ih rows (by simpa using h)]
+
+theorem maskEntry_seg_col (i : Nat) (t : Rat) : maskEntry (.seg i t) = maskCol := by
+  funext c v; rfl
+
+theorem ofMat_masked (f d : Vec) (e : Mat) (n : Nat) (hrect : Rect e n) :
+    ofMat f d e = { freq := f, dir := d, e := e.map (List.zipWith maskCol (List.replicate n true)) } := by
+  simp only [ofMat]
+  congr 1
+  apply List.map_congr_left
+  intro r hr
+  rw [zipWith_maskCol_true r n (by rw [hrect r hr])]
+
+theorem headD_map_true (e : Mat) (n : Nat) (hrect : Rect e n) (hne : e ≠ []) :
+    ((e.headD []).map fun _ => true) = List.replicate n true := by
+  cases e with
+  | nil => exact absurd rfl hne
+  | cons r t => simp [← hrect r (by simp), ← List.map_const']
+
+/-- GOAL 3 (without `maintain_m0`).  Whole-function equality: for a well-formed NaN-free 2-D spectrum (`e` has one row per
+    frequency, every row one value per direction) the generated `regrid_spec` IS the model's `regrid`, for every
+    combination of target frequencies / directions (given or `None`), NaN masks included. -/
+theorem genrg_regrid_eq (sqrt : Rat → Rat) (thr q : Rat) (f d : Vec) (e : Mat) (tf td : Option Vec)
+    (hl : e.length = f.length) (hrect : Rect e d.length) (hne : e ≠ []) :
+    Regrid.regrid thr q f (some d) e tf td false = .ok (toOut (Gen.rgRegrid sqrt (ofMat f d e) tf td false)) := by
+  have hdr : ∀ t, Rect (dirStage d e t).vals ((dirStage d e t).locs.map Loc.isSeg).length := by
+    intro t r hr
+    simp only [dirStage, List.mem_map] at hr
+    obtain ⟨r0, _, rfl⟩ := hr
+    simp [dirStage]
+  have hmd : ∀ (locs : List Loc), List.zipWith maskDir locs = List.zipWith maskCol (locs.map Loc.isSeg) := by
+    intro locs; funext r; rw [List.zipWith_map_left]; rfl
+  cases tf with
+  | none =>
+    cases td with
+    | none =>
+      simp only [regrid, core, coreOk, dirPart, freqPart, finish, Gen.rgRegrid, toOut, Bool.false_eq_true, if_false]
+      congr 2
+      rw [zipWith_const_rows _ _ f e (by omega), headD_map_true e _ hrect hne, maskEntry_seg_col]
+      simp only [ofMat]
+      apply List.map_congr_left
+      intro r hr
+      rw [zipWith_maskCol_true r _ (by rw [hrect r hr])]
+    | some t =>
+      simp only [regrid, core, coreOk, dirPart, freqPart, finish, Gen.rgRegrid, toOut, Bool.false_eq_true, if_false,
+        genrg_dir_stage_eq]
+      congr 2
+      rw [zipWith_const_rows _ _ f _ (by simp [dirStage]; omega), maskEntry_seg_col, hmd]
+  | some tf =>
+    cases td with
+    | none =>
+      simp only [regrid, core, coreOk, dirPart, freqPart, finish, Gen.rgRegrid, toOut, Bool.false_eq_true, if_false]
+      rw [ofMat_masked f d e _ hrect, genrg_freq_stage_masked_eq f d e _ tf (by simpa using hrect),
+        headD_map_true e _ hrect hne]
+    | some t =>
+      simp only [regrid, core, coreOk, dirPart, freqPart, finish, Gen.rgRegrid, toOut, Bool.false_eq_true, if_false,
+        genrg_dir_stage_eq]
+      rw [hmd, genrg_freq_stage_masked_eq f t _ _ tf (hdr t)]
+
+theorem mapM_some_id {α : Type} : ∀ r : List α, List.mapM (m := Option) some r = some r := by
+  intro r
+  induction r with
+  | nil => rfl
+  | cons a r ih => simp [List.mapM_cons, ih]
+
+theorem fin?_ofMat (f d : Vec) (e : Mat) : Rg.fin? (ofMat f d e) = some e := by
+  simp only [Rg.fin?, ofMat]
+  induction e with
+  | nil => rfl
+  | cons r t ih => simp [List.mapM_cons, mapM_some_id, ih]
+
+/-- the accessor `hs` of the generated code on a NaN-free spectrum: `4·sqrt` of the model's radicand `hsOf` -/
+theorem genrg_hs_eq (sqrt : Rat → Rat) (f d : Vec) (e : Mat) (hf : f ≠ []) :
+    Gen.rgHs sqrt (ofMat f d e) = 4 * sqrt (hsOf Consts.thr Consts.quarter f (some d) e) := by
+  simp only [Gen.rgHs, fin?_ofMat, Option.getD_some, Gen.xrHs, C01.genxr_hs_factor, hsOf, specS]
+  have hc : Rg.freqC (ofMat f d e) = f := rfl
+  have hd : Rg.dirC (ofMat f d e) = d := rfl
+  rw [hc, hd, C01.genxr_hs_composed f d e _ hf]
+  rfl
+
+/-- GOAL 2.  The `maintain_m0` factor of the generated block, `hs(in)**2 / hs(out)**2` through the regenerated accessor
+    (guarded float division), is the model's `scaleOf` of the two radicands, for NaN-free spectra with non-negative
+    radicands and any `sqrt` that inverts squaring on non-negative numbers. -/
+theorem genrg_m0_eq (sqrt : Rat → Rat) (f d : Vec) (e : Mat) (f' d' : Vec) (e' : Mat) (hf : f ≠ []) (hf' : f' ≠ [])
+    (hs0 : sqrt (hsOf Consts.thr Consts.quarter f (some d) e) ^ 2 = hsOf Consts.thr Consts.quarter f (some d) e)
+    (hs1 : sqrt (hsOf Consts.thr Consts.quarter f' (some d') e') ^ 2 = hsOf Consts.thr Consts.quarter f' (some d') e') :
+    Rg.divG ((Gen.rgHs sqrt (ofMat f d e)) ^ 2) ((Gen.rgHs sqrt (ofMat f' d' e')) ^ 2) =
+      scaleOf (hsOf Consts.thr Consts.quarter f (some d) e) (hsOf Consts.thr Consts.quarter f' (some d') e') true := by
+  rw [genrg_hs_eq sqrt f d e hf, genrg_hs_eq sqrt f' d' e' hf']
+  generalize hsOf Consts.thr Consts.quarter f (some d) e = a at hs0 ⊢
+  generalize hsOf Consts.thr Consts.quarter f' (some d') e' = b at hs1 ⊢
+  have h0 : 0 ≤ a := by rw [← hs0]; positivity
+  have h1 : 0 ≤ b := by rw [← hs1]; positivity
+  have ha : (4 * sqrt a) ^ 2 = 16 * a := by rw [mul_pow, hs0]; norm_num
+  have hb : (4 * sqrt b) ^ 2 = 16 * b := by rw [mul_pow, hs1]; norm_num
+  rw [ha, hb]
+  simp only [Rg.divG, scaleOf, Bool.true_and, h0, decide_true]
+  by_cases hb0 : b = 0
+  · subst hb0; simp
+  · have hpos : 0 < b := lt_of_le_of_ne h1 (Ne.symm hb0)
+    simp only [hpos, decide_true, if_true]
+    rw [if_neg (by positivity)]
+    congr 1
+    field_simp
+
+theorem allOK_iff (c : Core) (h : c.allOK = true) : (∀ b ∈ c.colOK, b = true) ∧ (∀ l ∈ c.rowSt, l.isNan = false) := by
+  unfold Core.allOK at h
+  rw [Bool.and_eq_true, List.all_eq_true, List.all_eq_true] at h
+  exact ⟨fun b hb => by simpa using h.1 b hb, fun l hl => by simpa using h.2 l hl⟩
+
+theorem maskEntry_notnan (l : Loc) (h : l.isNan = false) (v : ℚ) : maskEntry l true v = some v := by
+  cases l <;> simp_all [maskEntry, Loc.isNan]
+
+/-- without `maintain_m0`, when nothing is masked the output is the numeric pipeline -/
+theorem finish_false_allOK (c : Core) (s : Option ℚ) (hok : c.allOK = true)
+    (h3 : c.vals.length ≤ c.rowSt.length) (h4 : ∀ r ∈ c.vals, r.length ≤ c.colOK.length) :
+    finish c false s = c.vals.map (·.map some) := by
+  obtain ⟨h2, h1⟩ := allOK_iff c hok
+  unfold finish
+  simp only [Bool.false_eq_true, if_false]
+  apply List.ext_getElem
+  · simp; omega
+  · intro i hi1 hi2
+    have hiv : i < c.vals.length := by simpa using hi2
+    have hir : i < c.rowSt.length := by omega
+    rw [List.getElem_zipWith, List.getElem_map]
+    have hrow := h1 _ (List.getElem_mem hir)
+    apply List.ext_getElem
+    · have := h4 _ (List.getElem_mem hiv); simp; omega
+    · intro j hj1 hj2
+      have hjv : j < (c.vals[i]).length := by simpa using hj2
+      have hjc : j < c.colOK.length := by have := h4 _ (List.getElem_mem hiv); omega
+      rw [List.getElem_zipWith, List.getElem_map, h2 _ (List.getElem_mem hjc)]
+      exact maskEntry_notnan _ hrow _
+
+theorem getD_row_le (rows : Mat) (n i : Nat) (h : ∀ r ∈ rows, r.length ≤ n) : (rows.getD i []).length ≤ n := by
+  by_cases hi : i < rows.length
+  · rw [getD_of_lt rows i hi]; exact h _ (List.getElem_mem hi)
+  · rw [getD_of_ge rows i (by omega)]; simp
+
+theorem applyLocV_len_le (nd n : Nat) (rows : Mat) (l : Loc) (hnd : nd ≤ n) (h : ∀ r ∈ rows, r.length ≤ n) :
+    (applyLocV nd rows l).length ≤ n := by
+  cases l with
+  | out => simpa [applyLocV] using hnd
+  | nan => simpa [applyLocV] using hnd
+  | seg i t =>
+    simp only [applyLocV, List.length_zipWith]
+    exact le_trans (Nat.min_le_left _ _) (getD_row_le rows n i h)
+
+theorem freqStage_rows_le (f : Vec) (E : Mat) (tf : Vec) (n : Nat) (hE : ∀ r ∈ E, r.length ≤ n) :
+    ∀ r ∈ (freqStage f E tf).vals, r.length ≤ n := by
+  intro r hr
+  simp only [freqStage, List.mem_map] at hr
+  obtain ⟨l, _, rfl⟩ := hr
+  have hnd : (E.headD []).length ≤ n := by
+    cases E with
+    | nil => simp
+    | cons r t => exact hE r (by simp)
+  apply applyLocV_len_le _ n _ _ hnd
+  intro r hr
+  obtain ⟨p, hp, rfl⟩ := List.mem_map.mp hr
+  rw [mem_sortK] at hp
+  rcases List.mem_append.mp hp with hp | hp
+  · split at hp
+    · simp at hp; subst hp; simpa using hnd
+    · simp at hp
+  · exact hE _ (List.of_mem_zip hp).2
+
+theorem coreOk_shape (f d : Vec) (e : Mat) (tf td : Option Vec) (hl : e.length = f.length) (hrect : Rect e d.length)
+    (hne : e ≠ []) :
+    (coreOk f (some d) e tf td).vals.length ≤ (coreOk f (some d) e tf td).rowSt.length ∧
+    (∀ r ∈ (coreOk f (some d) e tf td).vals, r.length ≤ (coreOk f (some d) e tf td).colOK.length) ∧
+    ∃ D, (coreOk f (some d) e tf td).dir = some D := by
+  have hdr : ∀ t, ∀ r ∈ (dirStage d e t).vals, r.length ≤ ((dirStage d e t).locs.map Loc.isSeg).length := by
+    intro t r hr
+    simp only [dirStage, List.mem_map] at hr
+    obtain ⟨r0, _, rfl⟩ := hr
+    simp [dirStage]
+  have he : ∀ r ∈ e, r.length ≤ ((e.headD []).map fun _ => true).length := by
+    intro r hr
+    rw [headD_map_true e _ hrect hne]; simp [hrect r hr]
+  cases tf with
+  | none =>
+    cases td with
+    | none => exact ⟨by simp [coreOk, dirPart, freqPart, hl], he, _, rfl⟩
+    | some t => exact ⟨by simp [coreOk, dirPart, freqPart, dirStage, hl], hdr t, _, rfl⟩
+  | some tf =>
+    cases td with
+    | none =>
+      exact ⟨by simp [coreOk, dirPart, freqPart, freqStage], freqStage_rows_le f e tf _ he, _, rfl⟩
+    | some t =>
+      exact ⟨by simp [coreOk, dirPart, freqPart, freqStage], freqStage_rows_le f _ tf _ (hdr t), _, rfl⟩
+
+theorem mulScale_ofMat (f d : Vec) (e : Mat) (k : Option Rat) :
+    Rg.mulScale (ofMat f d e) k =
+      { freq := f, dir := d,
+        e := match k with
+          | some k => e.map fun r => r.map fun v => some (k * v)
+          | none => e.map fun r => r.map fun _ => none } := by
+  cases k <;> simp [Rg.mulScale, ofMat, mul_comm]
+
+/-- GOAL 3 (with `maintain_m0`).  Whole-function equality when nothing is masked (`allOK`: every target direction inside
+    the extended node range, no degenerate frequency segment), for any `sqrt` that inverts squaring on the two radicands. -/
+theorem genrg_regrid_m0_eq (sqrt : Rat → Rat) (f d : Vec) (e : Mat) (tf td : Option Vec)
+    (hl : e.length = f.length) (hrect : Rect e d.length) (hne : e ≠ [])
+    (hok : (coreOk f (some d) e tf td).allOK = true) (hcf : (coreOk f (some d) e tf td).freq ≠ [])
+    (hs0 : sqrt (hsOf Consts.thr Consts.quarter f (some d) e) ^ 2 = hsOf Consts.thr Consts.quarter f (some d) e)
+    (hs1 : sqrt (hsOf Consts.thr Consts.quarter (coreOk f (some d) e tf td).freq (coreOk f (some d) e tf td).dir
+        (coreOk f (some d) e tf td).vals) ^ 2 =
+      hsOf Consts.thr Consts.quarter (coreOk f (some d) e tf td).freq (coreOk f (some d) e tf td).dir
+        (coreOk f (some d) e tf td).vals) :
+    Regrid.regrid Consts.thr Consts.quarter f (some d) e tf td true =
+      .ok (toOut (Gen.rgRegrid sqrt (ofMat f d e) tf td true)) := by
+  obtain ⟨hA, hB, D, hD⟩ := coreOk_shape f d e tf td hl hrect hne
+  have hfalse := genrg_regrid_eq sqrt Consts.thr Consts.quarter f d e tf td hl hrect hne
+  have hf : f ≠ [] := by intro h; subst h; exact hne (List.eq_nil_of_length_eq_zero (by simpa using hl))
+  have hstep : Gen.rgRegrid sqrt (ofMat f d e) tf td true =
+      Gen.rgM0Block sqrt (ofMat f d e) (Gen.rgRegrid sqrt (ofMat f d e) tf td false) := by
+    cases tf <;> cases td <;> rfl
+  have hds : Gen.rgRegrid sqrt (ofMat f d e) tf td false =
+      ofMat (coreOk f (some d) e tf td).freq D (coreOk f (some d) e tf td).vals := by
+    simp only [regrid, core] at hfalse
+    rw [finish_false_allOK _ _ hok hA hB, hD] at hfalse
+    injection hfalse with h
+    generalize Gen.rgRegrid sqrt (ofMat f d e) tf td false = ds' at h ⊢
+    cases ds'
+    simp only [toOut, Out.mk.injEq, Option.some.injEq] at h
+    simp only [ofMat, h.1, h.2.1, ← h.2.2]
+  rw [hstep, hds, genrg_m0_shape, genrg_m0_eq sqrt f d e _ D _ hf hcf hs0 (by rw [← hD]; exact hs1), mulScale_ofMat]
+  simp only [regrid, core, hok, finish, if_true, toOut, hD]
+  generalize scaleOf _ _ true = k
+  cases k <;> rfl
+
+/-- GOAL 4a.  HEADLINE (C08 `zero_above_fmax`) on the GENERATED function: a requested frequency above every source
+    frequency carries no energy in any direction (entries are `0` or NaN), for every well-formed NaN-free spectrum -/
+theorem genrg_zero_above_fmax (sqrt : Rat → Rat) (f d : Vec) (e : Mat) (tf : Vec) (td : Option Vec)
+    (hl : e.length = f.length) (hrect : Rect e d.length) (hne : e ≠ []) (i : Nat) (hi : i < tf.length)
+    (hx : ∀ y ∈ f, y < getR tf i) (h0 : 0 < getR tf i) :
+    ∀ x ∈ (Gen.rgRegrid sqrt (ofMat f d e) (some tf) td false).e.getD i [], ∀ w, x = some w → w = 0 :=
+  zero_above_fmax 0 0 f (some d) e tf td false _ (genrg_regrid_eq sqrt 0 0 f d e (some tf) td hl hrect hne) i hi hx h0
+
+/-- GOAL 4b.  HEADLINE (C08 `m0_exact`) on the GENERATED function: with `maintain_m0`, nothing masked and energy on the
+    target grid, the generated result is NaN-free and its `hs` radicand on the OUTPUT grid equals the radicand of the
+    source on the SOURCE grid -/
+theorem genrg_m0_exact (sqrt : Rat → Rat) (f d : Vec) (e : Mat) (tf td : Option Vec)
+    (hl : e.length = f.length) (hrect : Rect e d.length) (hne : e ≠ [])
+    (hok : (coreOk f (some d) e tf td).allOK = true) (hcf : (coreOk f (some d) e tf td).freq ≠ [])
+    (hs0 : sqrt (hsOf Consts.thr Consts.quarter f (some d) e) ^ 2 = hsOf Consts.thr Consts.quarter f (some d) e)
+    (hs1 : sqrt (hsOf Consts.thr Consts.quarter (coreOk f (some d) e tf td).freq (coreOk f (some d) e tf td).dir
+        (coreOk f (some d) e tf td).vals) ^ 2 =
+      hsOf Consts.thr Consts.quarter (coreOk f (some d) e tf td).freq (coreOk f (some d) e tf td).dir
+        (coreOk f (some d) e tf td).vals)
+    (hout : 0 < hsOf Consts.thr Consts.quarter (coreOk f (some d) e tf td).freq (coreOk f (some d) e tf td).dir
+        (coreOk f (some d) e tf td).vals) :
+    ∃ vals : Mat, (Gen.rgRegrid sqrt (ofMat f d e) tf td true).e = vals.map (·.map some) ∧
+      hsOf Consts.thr Consts.quarter (Gen.rgRegrid sqrt (ofMat f d e) tf td true).freq
+        (some (Gen.rgRegrid sqrt (ofMat f d e) tf td true).dir) vals = hsOf Consts.thr Consts.quarter f (some d) e := by
+  have hc : core f (some d) e tf td = .ok (coreOk f (some d) e tf td) := by cases td <;> rfl
+  have hin : 0 ≤ hsOf Consts.thr Consts.quarter f (some d) e := by rw [← hs0]; positivity
+  exact m0_exact Consts.thr Consts.quarter f (some d) e tf td _ _
+    (genrg_regrid_m0_eq sqrt f d e tf td hl hrect hne hok hcf hs0 hs1) hc hok hin hout
+
+/-! ### non-vacuity -/
+def f1 : Vec := [1]
+def d1 : Vec := [0]
+def e1 : Mat := [[4 / 5]]
+
+example : Rect [[1, 2]] [true, false].length := by intro r hr; simp at hr; subst hr; rfl
+example : eE.length = fE.length ∧ Rect eE dE.length ∧ eE ≠ [] := by
+  refine ⟨rfl, ?_, by decide⟩
+  intro r hr; simp [eE] at hr; rcases hr with rfl | rfl <;> rfl
+example : hsOf Consts.thr Consts.quarter f1 (some d1) e1 = 1 := by decide +kernel
+example : e1.length = f1.length ∧ Rect e1 d1.length ∧ e1 ≠ [] ∧
+    (coreOk f1 (some d1) e1 (some f1) (some d1)).allOK = true ∧ (coreOk f1 (some d1) e1 (some f1) (some d1)).freq ≠ [] ∧
+    id (hsOf Consts.thr Consts.quarter f1 (some d1) e1) ^ 2 = hsOf Consts.thr Consts.quarter f1 (some d1) e1 ∧
+    id (hsOf Consts.thr Consts.quarter (coreOk f1 (some d1) e1 (some f1) (some d1)).freq
+        (coreOk f1 (some d1) e1 (some f1) (some d1)).dir (coreOk f1 (some d1) e1 (some f1) (some d1)).vals) ^ 2 =
+      hsOf Consts.thr Consts.quarter (coreOk f1 (some d1) e1 (some f1) (some d1)).freq
+        (coreOk f1 (some d1) e1 (some f1) (some d1)).dir (coreOk f1 (some d1) e1 (some f1) (some d1)).vals ∧
+    0 < hsOf Consts.thr Consts.quarter (coreOk f1 (some d1) e1 (some f1) (some d1)).freq
+        (coreOk f1 (some d1) e1 (some f1) (some d1)).dir (coreOk f1 (some d1) e1 (some f1) (some d1)).vals := by
+  refine ⟨rfl, ?_, by decide, by decide +kernel, by decide +kernel, by decide +kernel, by decide +kernel, by decide +kernel⟩
+  intro r hr; simp [e1] at hr; subst hr; rfl
+example : 2 < tfE.length ∧ (∀ y ∈ fE, y < getR tfE 2) ∧ 0 < getR tfE 2 := by decide +kernel
+/-- the generated function and the model agree on the worked example of `Props/C08.lean`, computed -/
+example : regrid (333 / 1000) (1 / 4) fE (some dE) eE (some tfE) (some tdE) false =
+    .ok (toOut (Gen.rgRegrid id (ofMat fE dE eE) (some tfE) (some tdE) false)) := by
+  decide +kernel
+
+example : ([1, 2] : Vec).length ≤ 2 ∧ (2 : Nat) ≤ [true, true, false].length ∧ ([[1, 2]] : Mat).length ≤ ([3] : Vec).length := by decide
+example : Loc.isNan (.seg 0 0) = false ∧ Loc.isNan .out = false := ⟨rfl, rfl⟩
+example : ∀ r ∈ ([[1, 2], [3]] : Mat), r.length ≤ 2 := by decide
 
 end WS.C08
